@@ -165,6 +165,7 @@ pub fn main(types: Vec<TypeEntry>, shapes: Vec<&'static str>, table_src: &str) -
     }
     let tier = if args.first().map(|s| s.as_str()) == Some("thorough") { Tier::Thorough } else { Tier::Quick };
     let ctx = Ctx::new(P, "exploration", tier);
+    crate::alloc::start_watchdog(P, 60, verif_root().join("replays").join(P));
     let mut stats = Stats::new();
     stats.sample_cap = 8;
     let per_struct: u32 = tier.pick(200, 600);
